@@ -395,6 +395,15 @@ def main():
     # /tmp/repo.lock while /repo carries a patch): with VCHECK_REPO_LOCK=1 everything that reads
     # /repo's sources (translators, cargo build) happens while holding that lock.  Off by default.
     # one check of a property at a time: they share work/<id>/ (case files, scratch, summary)
+    # lock order: the /repo lock first (tools/locked_check.sh and tools/with_patch.sh take it before they
+    # start this script), then the per-property lock — the other order deadlocks against them
+    locked = False
+    if os.environ.get("VCHECK_REPO_LOCK") == "1":
+        while True:
+            try:
+                os.mkdir("/tmp/repo.lock"); locked = True; break
+            except FileExistsError:
+                time.sleep(10)
     plock = os.path.join(WORK, pid, ".lock")
     os.makedirs(os.path.join(WORK, pid), exist_ok=True)
     while True:
@@ -412,13 +421,6 @@ def main():
             time.sleep(5)
     import atexit
     atexit.register(lambda: shutil.rmtree(plock, ignore_errors=True))
-    locked = False
-    if os.environ.get("VCHECK_REPO_LOCK") == "1":
-        while True:
-            try:
-                os.mkdir("/tmp/repo.lock"); locked = True; break
-            except FileExistsError:
-                time.sleep(10)
     try:
         return main_locked(pid, tier, seed, spec, t0, log, violations, known_hits, lambda: release_lock(locked))
     finally:
